@@ -558,7 +558,10 @@ func judge(w *rep.Worker, via string, readFault bool, panicText string, failed, 
 		}
 		got, ok, why := parseDump(stdout)
 		if !ok {
-			tt.Fatalf("HARNESS: cannot parse protodump output (%s):\n%s", why, stdout)
+			// the output of a successful dump of a valid message does not follow protodump's own format: what is
+			// printed does not correspond to the input
+			w.Violate("dump-output-malformed|"+via, fmt.Sprintf("%s; stdout %q", why, clip(stdout)))
+			return
 		}
 		if d := sameEntries(got, want, false); d != "" {
 			w.Violate("dump-differs-from-reference|"+via, d+fmt.Sprintf("; stdout %q", clip(stdout)))
